@@ -626,6 +626,22 @@ namespace ValueFlow
                         // Value can't be inverted
                         continue;
                     v.intvalue = -v.intvalue;
+                    // the negation of an unsigned int / unsigned long operand wraps around
+                    std::uint8_t bits = 0;
+                    if (tok->valueType() &&
+                        tok->valueType()->sign == ValueType::Sign::UNSIGNED &&
+                        tok->valueType()->pointer == 0) {
+                        if (tok->valueType()->type == ValueType::Type::INT)
+                            bits = settings.platform.int_bit;
+                        else if (tok->valueType()->type == ValueType::Type::LONG)
+                            bits = settings.platform.long_bit;
+                    }
+                    if (bits > 0 && bits < MathLib::bigint_bits) {
+                        if (v.bound != Value::Bound::Point)
+                            // a bound on the operand does not bound the wrapped result
+                            continue;
+                        v.intvalue &= (1ULL<<bits) - 1;
+                    }
                 } else
                     v.floatValue = -v.floatValue;
                 v.invertBound();
